@@ -53,7 +53,7 @@ CLAIMED = {
         technique='Coq proof (induction over the dispatch loop; look-ahead lemmas for every reader) + bounded kernel sweep + extracted-model correspondence + law oracle',
         design='5/C05'),
     'C14': dict(
-        text='(000) Theorem over ALL paragraphs of ANY number of lines in which DELIMITER CHARACTERS STAND WHERE THEY MEAN NOTHING, whole pipeline model (C14_inert_delimiters_pass_through): the joined text has no backslash, backtick or &, no ] directly followed by ( (the document defines no link references), no run of * or _ that could close emphasis by the flanking rules (isolated runs, intraword underscores, runs that can only open), and for every regex-defined span token of the configuration a character every match must consume is absent (so a < without > is inert): however many runs, [ ![ and ] the text holds, the delimiter scanner ends without a match (an invariant of its loop: no delimiter on the stack can close, find_link_image only removes brackets), and the paragraph renders as <p> + the lines, escaped, joined by newlines + </p>; every hypothesis is also a computable check, evaluated in the proof assistant on a sample of the paragraphs that are run on the implementation. (00) Theorem over ALL paragraphs of ANY number of lines, whole pipeline model: a plain first line followed by continuation lines (plain lines whose first character can be neither a setext underline nor a list-item marker) parses to one paragraph - raw text and soft line breaks - and renders as <p> + the lines, escaped, joined by newlines + </p>: the paragraph reader goes on over every line, the LineBreak pattern finds exactly the newlines (evaluated in the regex engine), the candidates tile the text. (0) Theorem over ALL lines, whole pipeline model (block phase, every span-token finder, delimiter scanner, candidate tiling, HTML renderer) and every modelled '
+        text='(000) Theorem over ALL paragraphs of ANY number of lines in which DELIMITER CHARACTERS STAND WHERE THEY MEAN NOTHING, whole pipeline model (C14_inert_delimiters_pass_through): the joined text has no backslash or backtick, no & or no ; (so no character reference can be completed: `AT&T`, `a && b` are inert), no ] directly followed by ( (the document defines no link references), no run of * or _ that could close emphasis by the flanking rules (isolated runs, intraword underscores, runs that can only open), and for every regex-defined span token of the configuration a character every match must consume is absent (so a < without > is inert): however many runs, [ ![ and ] the text holds, the delimiter scanner ends without a match (an invariant of its loop: no delimiter on the stack can close, find_link_image only removes brackets), and the paragraph renders as <p> + the lines, escaped, joined by newlines + </p>; every hypothesis is also a computable check, evaluated in the proof assistant on a sample of the paragraphs that are run on the implementation. (00) Theorem over ALL paragraphs of ANY number of lines, whole pipeline model: a plain first line followed by continuation lines (plain lines whose first character can be neither a setext underline nor a list-item marker) parses to one paragraph - raw text and soft line breaks - and renders as <p> + the lines, escaped, joined by newlines + </p>: the paragraph reader goes on over every line, the LineBreak pattern finds exactly the newlines (evaluated in the regex engine), the candidates tile the text. (0) Theorem over ALL lines, whole pipeline model (block phase, every span-token finder, delimiter scanner, candidate tiling, HTML renderer) and every modelled '
              'token configuration: a line free of the 14 trigger characters that begins with a non-marker character and does not end in white space renders as '
              '<p> + escaped text + </p>; it rests on two analyses of the regex engine proved sound for every pattern (needs: each inline pattern consumes its trigger '
              'character; nomatch: a block pattern cannot start with a given character) evaluated by the kernel on the regenerated patterns. '
@@ -63,7 +63,7 @@ CLAIMED = {
              'one line x 1-3 tokens or two lines x 1-2 tokens over a 16-token vocabulary that passes an inertness predicate written from the CommonMark rules '
              '(independent of the parser model) as <p> + escaped text + </p>. (c) Oracle on the implementation: 143-token vocabulary, 1-4 lines, exhaustive 1- and '
              '2-token lines, same predicate; model tied by X-doc and by comparing the model\'s HTML.',
-        note='The block start predicates and is_closer / follows of the model are proved equal to the functions translated from the source on every run (C14_block_starts_are_the_source, C14_closer_is_the_source). Unbounded for trigger-free paragraphs and for paragraphs with inert * _ [ ] ! < > ( ) of any number of lines. PARTIAL for the other inert positions the property names (& not starting a character reference, single ~, a line that begins with a marker character used as a word such as -x or #tag or 1.a, | outside a table): bounded in the kernel, sampled beyond. Trusted: Coq kernel incl. vm_compute, '
+        note='The block start predicates and is_closer / follows of the model are proved equal to the functions translated from the source on every run (C14_block_starts_are_the_source, C14_closer_is_the_source). Unbounded for trigger-free paragraphs and for paragraphs with inert * _ [ ] ! < > ( ) of any number of lines. PARTIAL for the other inert positions the property names (& in a text that also holds a ; but completes no character reference, single ~, a line that begins with a marker character used as a word such as -x or #tag or 1.a, | outside a table): bounded in the kernel, sampled beyond. Trusted: Coq kernel incl. vm_compute, '
              'extraction, translators, the hand-written pipeline model (correspondence-checked), the inertness predicate (python and Coq twins; conservative - '
              'texts with ~~, backticks, backslashes, tabs are skipped).',
         technique='Coq proof (verified regex first-character analysis with reflective side conditions; bounded kernel sweep guarded by an independent predicate) '
